@@ -121,6 +121,9 @@ class Check:
         self.vacuity = {"covers_sat": 0, "planted_refuted": 0, "failed": []}
         self.notes = []
         self.expected = self._load_expected()
+        self.state_frames = {}
+        p_ = os.path.join(VERIF, "contracts", "expected_state_frames.json")
+        self.expected_state = json.load(open(p_)).get(self.prop, {}) if os.path.exists(p_) else {}
         os.makedirs(os.path.join(EVDIR, "replays"), exist_ok=True)
 
     def _load_expected(self):
@@ -213,6 +216,8 @@ class Check:
             if out and out.get("violated"):
                 o.witness = out.get("input")
                 o.replay = out
+                if not o.clause:
+                    o.clause = "undecided deductively (%s); the bounded native stand-in of the same contract fails: %s" % (o.note[:100], str(out.get("history") or out.get("observed"))[:160])
                 self._violation(o, out)
                 return
             o.note += " | fallback=bounded-pass"
@@ -452,6 +457,7 @@ class Check:
             "undecided": [o.id for o in self.undecided] + ["%s/%s (not generated)" % (self.prop, k) for k in getattr(self, "missing_expected", [])],
             "vacuity_guards": self.vacuity,
             "axiom_library": axl,
+            "state_frames": {k: sorted(v) for k, v in self.state_frames.items()},
             "samples": self.samples[:6] or [{"note": "no discharged obligation"}],
             "explanation": explanation or ("%d of %d obligations discharged on the real source; bounded stand-ins and known findings are listed separately and never counted as discharged" % (nd, n)),
             "notes": self.notes,
